@@ -357,6 +357,11 @@ class ToolRun:
                 pass
             os.remove(stats)
         self.invocations += 1
+        if rc == -9 and len(dirs) == 1:
+            # a single package that timed out: before calling it a hang, give it three times as long once more
+            # (the machine may just be busy); a search that explodes does not finish in that time either
+            rc, so, se, dt = run([self.wire, self.cmd] + self.args + pats, cwd=self.b.root, limit_mem=True, env=env,
+                                 timeout=self.single_timeout * 3)
         crashed = rc == -9 or rc == 2 and PANIC_RE.search(se) or (rc not in (0, 1) and self.cmd != 'diff')
         if crashed and len(dirs) > 1:
             # a hang / crash / out-of-memory somewhere in the chunk: isolate it by running every package alone
